@@ -756,7 +756,45 @@ def _process_step_result_tick(
     )
     step_no_longer_in_progress = True
 
-    for result in tick.result:
+    results = tick.result
+    # A run that completed a collect_events() buffer did so against the snapshot
+    # it was started with. If the buffer changed meanwhile (another invocation
+    # consumed or extended it), its outcome is stale: re-run it against the
+    # current buffer instead of returning the same events twice.
+    stale_collect = next(
+        (
+            r
+            for r in results
+            if isinstance(r, DeleteCollectedEvent)
+            and did_complete_step
+            and [id(e) for e in worker_state.collected_events.get(r.event_id, [])]
+            != [
+                id(e)
+                for e in this_execution.shared_state.collected_events.get(
+                    r.event_id, []
+                )
+            ]
+        ),
+        None,
+    )
+    if stale_collect is not None:
+        step_no_longer_in_progress = False
+        this_execution.shared_state = replace(
+            this_execution.shared_state,
+            collected_events={
+                x: list(y) for x, y in worker_state.collected_events.items()
+            },
+        )
+        commands.append(
+            CommandRunWorker(
+                step_name=tick.step_name,
+                event=tick.event,
+                id=this_execution.worker_id,
+            )
+        )
+        results = []
+
+    for result in results:
         if isinstance(result, StepWorkerResult):
             output_event_name = str(type(result.result))
             if isinstance(result.result, StopEvent):
